@@ -614,7 +614,11 @@ fn apply_byte_fault(rng: &mut Rng, kind: &str, files: &mut [(String, Vec<u8>)]) 
         "nesting_bomb" => {
             // Up to a few kilobytes of nesting.
             let depth = *rng.pick(&[8usize, 64, 200, 400, 800]);
-            let bomb = match rng.below(15) {
+            let bomb = match rng.below(17) {
+                // Brackets whose partners hide in character and string literals or comments:
+                // what nests is what the tokeniser sees, not what the characters suggest.
+                15 => format!("{}{}\n", "(')'".repeat(depth.max(300) * 2), ")".repeat(depth.max(300) * 2)),
+                16 => format!("{}{}\n", "[\"]\" /*]*/".repeat(depth.max(300)), "]".repeat(depth.max(300))),
                 // Just inside every single limit, all at once: pointers around a generic-looking
                 // name, arrays around pointers.
                 12 => {
@@ -849,8 +853,62 @@ fn bend_project(rng: &mut Rng, p: &mut Project) -> Vec<String> {
         .filter(|i| matches!(p.items[*i].kind, ItemKind::Enum { .. }))
         .collect();
     for _ in 0..rng.range(1, 3) {
-        let what = rng.below(19);
+        let what = rng.below(21);
         match what {
+            19 | 20 => {
+                // A type declares a function that its bases already have: one base, or two bases
+                // that both expose a function of that name.
+                let derived: Vec<usize> = types
+                    .iter()
+                    .copied()
+                    .filter(|i| matches!(&p.items[*i].kind, ItemKind::Type { fields, .. } if fields.iter().any(|f| f.base)))
+                    .collect();
+                if let Some(&d) = derived.first().filter(|_| !derived.is_empty()).map(|_| rng.pick(&derived)) {
+                    let bases: Vec<usize> = match &p.items[d].kind {
+                        ItemKind::Type { fields, .. } => fields
+                            .iter()
+                            .filter(|f| f.base)
+                            .filter_map(|f| match &f.ty {
+                                Ty::Item(b) => Some(*b),
+                                _ => None,
+                            })
+                            .collect(),
+                        _ => vec![],
+                    };
+                    let name = format!("shared_fn_{}", rng.below(3));
+                    let mk = |addr: usize| Func {
+                        vis: true,
+                        name: name.clone(),
+                        recv: Some(false),
+                        args: vec![],
+                        ret: None,
+                        address: Some(addr),
+                        index: None,
+                        cc: None,
+                        doc: None,
+                    };
+                    // every base (or just some of them) gets the function, then the type itself
+                    for (k, b) in bases.iter().enumerate() {
+                        if k == 0 || rng.chance(2, 3) {
+                            let m = p.items[*b].module;
+                            if let ItemKind::Type { impl_funcs, .. } = &mut p.items[*b].kind {
+                                if impl_funcs.is_empty() {
+                                    p.modules[m].order.push(Decl::Impl(*b));
+                                }
+                                impl_funcs.push(mk(0x9100 + 16 * k));
+                            }
+                        }
+                    }
+                    let m = p.items[d].module;
+                    if let ItemKind::Type { impl_funcs, .. } = &mut p.items[d].kind {
+                        if impl_funcs.is_empty() {
+                            p.modules[m].order.push(Decl::Impl(d));
+                        }
+                        impl_funcs.push(mk(0x9200));
+                    }
+                    done.push("knob:function_named_like_inherited".to_string());
+                }
+            }
             17 | 18 => {
                 // Imports that lead nowhere, to one another, to themselves: `use` lines naming
                 // items that no module declares, modules that do not exist, the importing
